@@ -1,8 +1,7 @@
 """C03 — Parallel stages hand every work item to exactly one worker and then terminate."""
 PROPERTY = "C03"
 LEVEL = "other"
-CONTRACT_MODULES = ["contracts.specfuns", "contracts.lemmas_desc", "contracts.pyramid", "contracts.parallel", "contracts.walk", "contracts.reducer",
-                    "contracts.image", "contracts.merge", "contracts.pyramidio", "contracts.study", "contracts.multitan", "contracts.multiwcs"]
+CONTRACT_MODULES = ["contracts.specfuns", "contracts.lemmas_desc", "contracts.pyramid", "contracts.parallel", "contracts.walk", "contracts.reducer", "contracts.lemmas_embed", "contracts.generator", "contracts.image", "contracts.merge", "contracts.pyramidio", "contracts.study", "contracts.multitan", "contracts.multiwcs", "contracts.toastsample", "contracts.toastgeom", "contracts.toastgen"]
 FUNCTIONS = [
     "toasty.pyramid.Pyramid.visit_leaves",
     "toasty.pyramid.Pyramid._visit_leaves_serial",
@@ -14,6 +13,8 @@ FUNCTIONS = [
     "toasty.multi_tan.MultiTanProcessor._tile_parallel",
     "toasty.multi_wcs.MultiWcsProcessor._tile_parallel",
     "toasty.multi_wcs._mp_tile_worker",
+    "toasty.pyramid.Pyramid._generator",
+    "toasty.multi_tan._mp_tile_worker",
 ]
 LEMMAS = []
 SLOW = ()
